@@ -1,6 +1,7 @@
 package kit
 
 import (
+	"bytes"
 	"context"
 	"errors"
 	"fmt"
@@ -37,8 +38,26 @@ type Msg struct {
 
 func NoMsg() Msg { return Msg{Kind: "none"} }
 
-// BuildMsg constructs the real message with the library's constructors.
+// BuildMsg constructs the real message with the library's constructors and passes it through the wire form
+// (ToNet -> FromNet), so that what a handler receives is what a real peer would deliver: vouchers decoded from
+// DAG-CBOR (canonical map-key order), not the sender's in-memory nodes.
 func BuildMsg(m Msg) (datatransfer.Message, error) {
+	x, err := buildMsg0(m)
+	if err != nil || x == nil {
+		return x, err
+	}
+	var buf bytes.Buffer
+	if e := x.ToNet(&buf); e != nil {
+		return x, nil // not encodable: deliver the in-memory form (transport path of a local message)
+	}
+	y, e := message.FromNet(&buf)
+	if e != nil {
+		return x, nil
+	}
+	return y, nil
+}
+
+func buildMsg0(m Msg) (datatransfer.Message, error) {
 	tid := datatransfer.TransferID(m.Tid)
 	var vp *datatransfer.TypedVoucher
 	if m.V != "" {
